@@ -121,6 +121,8 @@ enum Step {
     Gen { state: u32, remaining: u64, k: usize },
     Interrupted,
     Hard(std::io::ErrorKind),
+    /// a hard error whose payload is a tlsh::GeneratorError (a reader forwarding a nested hashing failure)
+    HardGen(std::io::ErrorKind),
     /// claims buf.len() + k bytes without writing anything
     Lie(usize),
 }
@@ -162,6 +164,7 @@ impl Read for ScriptReader {
                     return Err(std::io::Error::new(std::io::ErrorKind::Interrupted, "scripted"))
                 }
                 Some(Step::Hard(k)) => return Err(std::io::Error::new(k, "scripted")),
+                Some(Step::HardGen(k)) => return Err(std::io::Error::new(k, tlsh::GeneratorError::TooSmallInput)),
                 Some(Step::Lie(k)) => return Ok(buf.len() + k),
             }
         }
@@ -203,6 +206,10 @@ fn parse_script(t: &[Tok], mut i: usize) -> ScriptReader {
             }
             "e" => {
                 steps.push_back(Step::Hard(io_kind(s(t, i + 1))));
+                i += 2;
+            }
+            "eg" => {
+                steps.push_back(Step::HardGen(io_kind(s(t, i + 1))));
                 i += 2;
             }
             "lie" => {
@@ -332,6 +339,18 @@ pub fn dispatch(t: &[Tok]) -> String {
                     } else {
                         hex(a.as_bytes())
                     }
+                }
+            }
+        }),
+        "debugf" => for_variant!(s(t, 1), T, {
+            let r = L!(T::try_from(b(t, 2)));
+            match &r {
+                Err(e) => format!("hasherr {:?}", e),
+                Ok(h) => {
+                    let n = format!("{:?}{:#?}{:?}{:#?}{:?}{:#?}{:?}{:#?}{:?}{:#?}", h, h, h.checksum(), h.checksum(), h.length(), h.length(),
+                                    h.qratios(), h.qratios(), h.body(), h.body()).len()
+                        + format!("{:?}{:#?}", r, r).len();
+                    if n > 0 { "ok".to_string() } else { "empty".to_string() }
                 }
             }
         }),
@@ -465,6 +484,35 @@ pub fn dispatch(t: &[Tok]) -> String {
                     format!(
                         "{} {} {} {} {} {} {} {} {} {} {} {} {} {}",
                         v.0, v.1, v.2, v.3, v.4, v.5, v.6, v.7, v.8, ndiff, v.9, v.10, v.11 as u8, v.12
+                    )
+                }
+                (Err(e), _) => format!("hasherr {:?}", e),
+                (_, Err(e)) => format!("hasherr {:?}", e),
+            }
+        }),
+        // traits V a b: derived trait behaviour of two values and their parts
+        "traits" => for_variant!(s(t, 1), T, {
+            match (L!(T::try_from(b(t, 2))), L!(T::try_from(b(t, 3)))) {
+                (Ok(a), Ok(c)) => {
+                    let cl = a.clone();
+                    let mut cf = c;
+                    cf.clone_from(&a);
+                    let cp = a;
+                    let dbg = format!("{:?}", a) == format!("{:?}", cl) && (format!("{:?}", a) == format!("{:?}", c)) == (a == c);
+                    format!(
+                        "{} {} {} {} {} {} {} {} {} {} {} {}",
+                        (a == c) as u8,
+                        (a != c) as u8,
+                        (cl == a) as u8,
+                        (cf == a) as u8,
+                        (cp == a) as u8,
+                        dbg as u8,
+                        (a.checksum() == c.checksum()) as u8,
+                        (a.length() == c.length()) as u8,
+                        (a.qratios() == c.qratios()) as u8,
+                        (a.body() == c.body()) as u8,
+                        bin_of(&cf),
+                        bin_of(&c)
                     )
                 }
                 (Err(e), _) => format!("hasherr {:?}", e),
@@ -641,6 +689,19 @@ pub fn dispatch(t: &[Tok]) -> String {
                     "fd" => {
                         out.push(res_hash(L!(stack.last().unwrap().finalize())));
                         i += 1;
+                    }
+                    "fo" => {
+                        // finalize with ONE options object configured as <a> first and then re-configured as <b>
+                        let (a, bb) = (n(t, i + 1), n(t, i + 2));
+                        let mut o = options(a);
+                        o.length_processing_mode(if bb & 1 != 0 { DataLengthProcessingMode::Conservative } else { DataLengthProcessingMode::Optimistic });
+                        o.pure_integer_qratio_computation(bb & 2 != 0);
+                        o.allow_small_size_files(bb & 4 != 0);
+                        o.allow_statistically_weak_buckets_half(bb & 8 != 0);
+                        o.allow_statistically_weak_buckets_quarter(bb & 16 != 0);
+                        let same = (o == options(bb)) as u8;
+                        out.push(format!("{} {}", res_hash(L!(stack.last().unwrap().finalize_with_options(&o))), same));
+                        i += 3;
                     }
                     "l" => {
                         out.push(match L!(stack.last().unwrap().processed_len()) {
